@@ -16,7 +16,9 @@ const maxInput = 4096
 type gen struct {
 	t       *tape.Tape
 	biased  bool // scheduling class: prefer batches of valid calls
+	sched   bool // scheduling class (completion order decided by the tape)
 	allNote bool // this batch: every entry without id
+	unser   bool // this input may call the methods whose result cannot be serialised
 	idPool  int
 }
 
@@ -363,7 +365,10 @@ func (g *gen) request() string {
 	}
 	switch {
 	case mm < 10:
-		m = &methodTable[g.t.Draw("method", len(methodTable))]
+		m = &methodTable[g.t.Draw("method", nPlainMethods)]
+		if g.unser && g.t.Chance("unser_method", 1, 3) {
+			m = &methodTable[nPlainMethods+g.t.Draw("unser_which", len(methodTable)-nPlainMethods)]
+		}
 		ms = append(ms, member{"method", fmt.Sprintf("%q", m.name)})
 	case mm < 12:
 		ms = append(ms, member{"method", g.pick("unknown", `"nope"`, `"rpc.discover"`, `"m1"`, `"m0 "`, `"echo"`, `"é"`)})
@@ -373,7 +378,7 @@ func (g *gen) request() string {
 	case mm == 14:
 		ms = append(ms, member{"method", g.pick("meth_type", "1", "null", "true", `["m0"]`, `{"name":"m0"}`, "0")})
 	default:
-		ms = append(ms, member{"method", fmt.Sprintf("%q", caseVariant(methodTable[g.t.Draw("method", len(methodTable))].name))})
+		ms = append(ms, member{"method", fmt.Sprintf("%q", caseVariant(methodTable[g.t.Draw("method", nPlainMethods)].name))})
 	}
 
 	// params
@@ -560,6 +565,13 @@ func (g *gen) input() ([]byte, string) {
 		if g.t.Chance("biased_single", 1, 6) {
 			top = 0
 		}
+	}
+	// Rarely the input may call a method whose result cannot be serialised: in single requests in
+	// every class, in batches only where the tape decides the completion order (what a server does
+	// after a failed serialisation may depend on which entry finishes first; with free-running
+	// handlers that order would be a goroutine race and a violation would not replay).
+	if top <= 4 || top == 14 || (g.sched && top >= 5 && top <= 10) {
+		g.unser = g.t.Chance("unser_input", 1, 12)
 	}
 	var s, label string
 	switch {
